@@ -1,4 +1,8 @@
 """C05 - matching is a pure function of (line, query, options)."""
+import os
+import sys
+
+sys.path.insert(0, os.path.dirname(os.path.abspath(__file__)))
 FILES = ["harness/algo/ref.go", "harness/algo/c05.go"]
 
 
@@ -17,3 +21,5 @@ def run(c, replay):
     c.run_layer(b, "TestVerif_C05_stale_rep_pos", "stale-rep-pos", deadline_s=c.pick(60, 600),
                 rule="all texts <= bound over 7 symbols x patterns <= 3 over 5 symbols x flags x 7 matchers: poisoned slabs, bytes vs runes, positions on/off "
                      "must not change Result/positions")
+    import cli_layers
+    cli_layers.layer_c05_cli(c)
